@@ -8,6 +8,14 @@
    by arithmetic on `name.bounds[k]`): `height3`.  Output: the guarded alternatives like pyexpr's, with the variable
    `"<fn>:<name>.bounds[k]"` standing for the measured coordinate, plus the clip specifications.
 
+3. Hook implementations that hand the opening to a helper (`return helpers.out_cross_section(self, self.usable_width)`):
+   `usable_cross_section`, `usable_cross_section3`, and the helpers themselves (`Polygon(np.concatenate([cl.coords for cl in
+   rp.contour_lines.geoms]))`, `clip_by_rect(poly, a, b, c, d)`, `rotate(poly, angle=, origin=(0, 0))`, `for _ in range(N)`,
+   `remove_repeated_points(poly, tolerance=<= 1e-9 * poly.length)`, `return refine_cross_section(poly)`).  Output: the term
+   the caller hands over for EVERY parameter of the helper (an omitted argument is replaced by the parameter's default:
+   a translatable default expression, or `None` with the idiom `if p is None: p = <term>` at the top of the helper) and the
+   helper's steps with loops unrolled, over the parameter variables `"<helper>:<parameter>"`.
+
 AST node types are whitelisted; anything else raises `Untranslatable` (recorded by the caller as a tie break).
 """
 import ast
@@ -273,3 +281,279 @@ def clip_vars(impl, clips, base_index):
                 elif v.startswith(c[0] + "."):
                     raise Untranslatable(f"clipped line used other than through .bounds[k]: {v}")
     return out
+
+
+# ---- hook implementations handing the opening to a cross-section helper ------------------------------------------
+
+class Helper:
+    def __init__(self):
+        self.fn = ""
+        self.lineno = 0
+        self.pass_name = "rp"
+        self.params = []        # python names after the pass
+        self.defaults = {}      # python name -> Expr tuple over the attribute paths of the pass (effective default)
+        self.ops = []           # ("clip", xmin, ymin, xmax, ymax) with None = infinite | ("rotate", angle)
+
+
+class HelperCall:
+    def __init__(self):
+        self.host = self.hook = self.fn = self.helper = self.helper_rel = ""
+        self.lineno = 0
+        self.positional = []    # Expr tuples after `self`
+        self.keywords = {}      # name -> Expr tuple
+        self.args = []          # filled by bind(): [(parameter variable, Expr tuple)]
+        self.defaulted = []     # parameters whose value is the helper's default
+
+
+def param_var(helper_fn, name):
+    return f"{helper_fn}:{name}"
+
+
+def _body(fn):
+    return [st for st in fn.body
+            if not (isinstance(st, ast.Expr) and isinstance(st.value, ast.Constant) and isinstance(st.value.value, str))]
+
+
+def extract_helper_call(path, host, hook, rel):
+    """the implementation registered on `<host>.<hook>` in `path` must be `return <helpers>.<fn>(self, <terms>...)`"""
+    tree = ast.parse(open(path).read())
+    found = []
+    for node in tree.body:
+        if isinstance(node, ast.FunctionDef):
+            for dec in node.decorator_list:
+                info = pyexpr._decorator_info(dec)
+                if info is not None and info[0] == host and info[1] == hook:
+                    found.append((node, info))
+    if len(found) != 1:
+        raise Untranslatable(f"{len(found)} implementations of {host}.{hook} in pyroll/core/{rel}")
+    node, info = found[0]
+    if info[2] != 1 or info[3]:
+        raise Untranslatable(f"{node.name} is registered tryfirst/trylast/wrapper")
+    if len(node.args.args) != 1 or node.args.vararg or node.args.kwarg or node.args.kwonlyargs:
+        raise Untranslatable(f"{node.name} takes more than the pass")
+    self_name = node.args.args[0].arg
+    body = _body(node)
+    if len(body) != 1 or not isinstance(body[0], ast.Return) or not isinstance(body[0].value, ast.Call):
+        raise Untranslatable(f"{node.name} is not a single `return <helper>(self, ...)`")
+    call = body[0].value
+    # which function is called: `<module alias>.<fn>` with `from . import <module>` / `from .<module> import <fn>`
+    mods, names = {}, {}
+    for imp in tree.body:
+        if isinstance(imp, ast.ImportFrom) and imp.level == 1:
+            for a in imp.names:
+                if imp.module is None:
+                    mods[a.asname or a.name] = a.name
+                else:
+                    names[a.asname or a.name] = (imp.module, a.name)
+    f = call.func
+    if isinstance(f, ast.Attribute) and isinstance(f.value, ast.Name) and f.value.id in mods:
+        module, fn = mods[f.value.id], f.attr
+    elif isinstance(f, ast.Name) and f.id in names:
+        module, fn = names[f.id]
+    else:
+        raise Untranslatable(f"{node.name} calls {ast.unparse(f)}, not a function of a sibling module")
+    out = HelperCall()
+    out.host, out.hook, out.fn, out.lineno = host, hook, node.name, node.lineno
+    out.helper = fn
+    out.helper_rel = os.path.join(os.path.dirname(rel), module.replace(".", "/") + ".py")
+    if not call.args or not (isinstance(call.args[0], ast.Name) and call.args[0].id == self_name):
+        raise Untranslatable(f"{node.name}: the first argument of {fn} is not the pass")
+    if any(isinstance(a, ast.Starred) for a in call.args) or any(k.arg is None for k in call.keywords):
+        raise Untranslatable(f"{node.name}: star arguments")
+    tr = ExprTranslator(self_name, {})
+    out.positional = [tr.tr(a) for a in call.args[1:]]
+    out.keywords = {k.arg: tr.tr(k.value) for k in call.keywords}
+    return out
+
+
+def _is_none(n):
+    return isinstance(n, ast.Constant) and n.value is None
+
+
+def extract_helper(path, fn_name):
+    tree = ast.parse(open(path).read())
+    shp = _shapely_names(tree)
+    imported = {}
+    for imp in tree.body:
+        if isinstance(imp, ast.ImportFrom):
+            for a in imp.names:
+                imported[a.asname or a.name] = a.name
+    node = next((n for n in tree.body if isinstance(n, ast.FunctionDef) and n.name == fn_name), None)
+    if node is None:
+        raise Untranslatable(f"helper {fn_name} not found")
+    if node.decorator_list:
+        raise Untranslatable(f"helper {fn_name} is decorated")
+    a = node.args
+    if a.vararg or a.kwarg or a.kwonlyargs or a.posonlyargs or not a.args:
+        raise Untranslatable(f"helper {fn_name}: parameter kinds")
+    h = Helper()
+    h.fn, h.lineno = fn_name, node.lineno
+    h.pass_name = a.args[0].arg
+    h.params = [x.arg for x in a.args[1:]]
+    n_def = len(a.defaults)
+    if n_def > len(h.params):
+        raise Untranslatable(f"helper {fn_name}: the pass parameter has a default")
+    none_default = set()
+    for name, d in zip(h.params[len(h.params) - n_def:], a.defaults):
+        if _is_none(d):
+            none_default.add(name)
+        else:
+            try:
+                h.defaults[name] = ExprTranslator(h.pass_name, {}).tr(d)
+            except Untranslatable as ex:
+                raise Untranslatable(f"helper {fn_name}: default of parameter {name}: {ex}")
+    locals_ = {n: ("var", param_var(fn_name, n)) for n in h.params}
+    body = _body(node)
+    # `if p is None: p = <term>` at the top: the effective default of p
+    while body and isinstance(body[0], ast.If):
+        st = body[0]
+        t = st.test
+        ok = (isinstance(t, ast.Compare) and len(t.ops) == 1 and isinstance(t.ops[0], ast.Is) and isinstance(t.left, ast.Name)
+              and _is_none(t.comparators[0]) and not st.orelse and len(st.body) == 1 and isinstance(st.body[0], ast.Assign)
+              and len(st.body[0].targets) == 1 and isinstance(st.body[0].targets[0], ast.Name)
+              and st.body[0].targets[0].id == t.left.id and t.left.id in none_default)
+        if not ok:
+            raise Untranslatable(f"helper {fn_name}: statement {ast.unparse(st)[:80]}")
+        h.defaults[t.left.id] = ExprTranslator(h.pass_name, {}).tr(st.body[0].value)
+        none_default.discard(t.left.id)
+        body = body[1:]
+    if none_default:
+        raise Untranslatable(f"helper {fn_name}: parameter(s) {sorted(none_default)} default to None")
+    poly = [None]
+
+    def tr(n):
+        return ExprTranslator(h.pass_name, locals_).tr(n)
+
+    def bound(n, sign):
+        return None if _is_inf(n, sign) else tr(n)
+
+    def is_poly(n):
+        return isinstance(n, ast.Name) and n.id == poly[0]
+
+    def step(st, loop_var=None):
+        if not (isinstance(st, ast.Assign) and len(st.targets) == 1 and is_poly(st.targets[0])
+                and isinstance(st.value, ast.Call) and isinstance(st.value.func, ast.Name)):
+            raise Untranslatable(f"helper {fn_name}: statement {ast.unparse(st)[:80]}")
+        v = st.value
+        if loop_var is not None and any(isinstance(x, ast.Name) and x.id == loop_var for x in ast.walk(v)):
+            raise Untranslatable(f"helper {fn_name}: the loop variable is used")
+        real = shp.get(v.func.id)
+        if real == "clip_by_rect":
+            if len(v.args) != 5 or v.keywords or not is_poly(v.args[0]):
+                raise Untranslatable(f"helper {fn_name}: clip_by_rect arguments")
+            return [("clip", bound(v.args[1], -1), bound(v.args[2], -1), bound(v.args[3], 1), bound(v.args[4], 1))]
+        if real == "rotate":
+            kw = {k.arg: k.value for k in v.keywords}
+            if len(v.args) != 1 or not is_poly(v.args[0]) or set(kw) != {"angle", "origin"}:
+                raise Untranslatable(f"helper {fn_name}: rotate needs the polygon, angle= and origin=")
+            o = kw["origin"]
+            if not (isinstance(o, ast.Tuple) and len(o.elts) == 2 and
+                    all(isinstance(e, ast.Constant) and e.value == 0 and not isinstance(e.value, bool) for e in o.elts)):
+                raise Untranslatable(f"helper {fn_name}: rotate origin is not (0, 0)")
+            return [("rotate", tr(kw["angle"]))]
+        if real == "remove_repeated_points":
+            # merges vertices closer than the tolerance: below what any comparison of this check resolves when the tolerance
+            # is at most 1e-9 of the polygon's own boundary length
+            kw = {k.arg: k.value for k in v.keywords}
+            t = kw.get("tolerance")
+            ok = (len(v.args) == 1 and is_poly(v.args[0]) and set(kw) == {"tolerance"} and isinstance(t, ast.BinOp)
+                  and isinstance(t.op, ast.Mult) and isinstance(t.left, ast.Constant) and isinstance(t.left.value, float)
+                  and 0 <= t.left.value <= 1e-9 and pyexpr.attr_path(t.right) == [poly[0], "length"])
+            if not ok:
+                raise Untranslatable(f"helper {fn_name}: {ast.unparse(v)[:80]}")
+            return []
+        raise Untranslatable(f"helper {fn_name}: call {v.func.id}")
+
+    if not body:
+        raise Untranslatable(f"helper {fn_name}: empty")
+    # poly = Polygon(np.concatenate([cl.coords for cl in rp.contour_lines.geoms]))
+    st = body[0]
+    ok = False
+    if isinstance(st, ast.Assign) and len(st.targets) == 1 and isinstance(st.targets[0], ast.Name) \
+            and isinstance(st.value, ast.Call) and isinstance(st.value.func, ast.Name) and shp.get(st.value.func.id) == "Polygon" \
+            and len(st.value.args) == 1 and not st.value.keywords:
+        c = st.value.args[0]
+        if isinstance(c, ast.Call) and pyexpr.attr_path(c.func) in (["np", "concatenate"], ["numpy", "concatenate"]) \
+                and len(c.args) == 1 and not c.keywords and isinstance(c.args[0], ast.ListComp):
+            lc = c.args[0]
+            if len(lc.generators) == 1 and not lc.generators[0].ifs and isinstance(lc.generators[0].target, ast.Name) \
+                    and pyexpr.attr_path(lc.generators[0].iter) == [h.pass_name, "contour_lines", "geoms"] \
+                    and pyexpr.attr_path(lc.elt) == [lc.generators[0].target.id, "coords"]:
+                ok = True
+    if not ok:
+        raise Untranslatable(f"helper {fn_name}: the polygon is not built from all of {h.pass_name}.contour_lines: "
+                             f"{ast.unparse(st)[:80]}")
+    poly[0] = st.targets[0].id
+    if poly[0] in h.params or poly[0] == h.pass_name:
+        raise Untranslatable(f"helper {fn_name}: the polygon overwrites a parameter")
+    returned = False
+    for st in body[1:]:
+        if returned:
+            raise Untranslatable(f"helper {fn_name}: statement after return")
+        if isinstance(st, ast.For):
+            it = st.iter
+            if not (isinstance(st.target, ast.Name) and not st.orelse and isinstance(it, ast.Call) and isinstance(it.func, ast.Name)
+                    and it.func.id == "range" and len(it.args) == 1 and not it.keywords and isinstance(it.args[0], ast.Constant)
+                    and isinstance(it.args[0].value, int) and not isinstance(it.args[0].value, bool)
+                    and 0 <= it.args[0].value <= 12):
+                raise Untranslatable(f"helper {fn_name}: loop {ast.unparse(st)[:60]}")
+            once = []
+            for inner in st.body:
+                once += step(inner, st.target.id)
+            h.ops += once * it.args[0].value
+            continue
+        if isinstance(st, ast.Return):
+            v = st.value
+            if isinstance(v, ast.Call) and isinstance(v.func, ast.Name) and imported.get(v.func.id) == "refine_cross_section" \
+                    and len(v.args) == 1 and not v.keywords and is_poly(v.args[0]):
+                returned = True
+                continue
+            if is_poly(v):
+                returned = True
+                continue
+            raise Untranslatable(f"helper {fn_name}: return {ast.unparse(v)[:60] if v else None}")
+        h.ops += step(st)
+    if not returned:
+        raise Untranslatable(f"helper {fn_name}: does not return the polygon")
+    return h
+
+
+def bind(call, helper):
+    """fill call.args: for every parameter of the helper the term it receives"""
+    if len(call.positional) > len(helper.params):
+        raise Untranslatable(f"{call.fn}: {len(call.positional)} arguments for {len(helper.params)} parameters of {helper.fn}")
+    given = dict(zip(helper.params, call.positional))
+    for k, v in call.keywords.items():
+        if k not in helper.params or k in given:
+            raise Untranslatable(f"{call.fn}: keyword {k} of {helper.fn}")
+        given[k] = v
+    call.args, call.defaulted = [], []
+    for name in helper.params:
+        if name in given:
+            call.args.append((param_var(helper.fn, name), given[name]))
+        elif name in helper.defaults:
+            call.args.append((param_var(helper.fn, name), helper.defaults[name]))
+            call.defaulted.append(name)
+        else:
+            raise Untranslatable(f"{call.fn}: parameter {name} of {helper.fn} receives nothing")
+
+
+def _lean_opt(e):
+    return "none" if e is None else f"(some {pyexpr.lean_expr(e)})"
+
+
+def lean_rop(op):
+    if op[0] == "clip":
+        return "(.clip " + " ".join(_lean_opt(e) for e in op[1:]) + ")"
+    return f"(.rotate {pyexpr.lean_expr(op[1])})"
+
+
+def lean_helper(h):
+    return ("{ fn := " + pyexpr.lean_str(h.fn) + ", params := [" + ", ".join(pyexpr.lean_str(param_var(h.fn, n)) for n in h.params)
+            + "],\n      ops := [" + ",\n              ".join(lean_rop(o) for o in h.ops) + "] }")
+
+
+def lean_call(c):
+    return ("{ host := " + pyexpr.lean_str(c.host) + ", hook := " + pyexpr.lean_str(c.hook) + ", fn := " + pyexpr.lean_str(c.fn)
+            + ", helper := " + pyexpr.lean_str(c.helper) + ",\n      args := ["
+            + ", ".join(f"({pyexpr.lean_str(v)}, {pyexpr.lean_expr(e)})" for v, e in c.args) + "] }")
